@@ -89,7 +89,7 @@ INTS = [0, 1, 2, 3, -1, -3, 7]
 FLOATS = [0.5, 1.5, -2.25, 2.0, 0.0, -0.5]
 STRS = ["", "a", "ab", "b"]
 PARAMS = ["x", "y", "z"]
-LOCS = ["machine.a", "machine.b", "settings.s1", "current_player.p", "device.counters.c1.value"]
+LOCS = ["machine.a", "machine.b", "settings.s1", "settings.s2", "current_player.p", "device.counters.c1.value"]
 
 
 def const_text(v):
@@ -252,6 +252,7 @@ def gen_env(r):
     return {"params": {p: val() for p in PARAMS},
             "machine.a": val(), "machine.b": val(),
             "settings.s1": r.choice([0, 1, 2]),
+            "settings.s2": r.choice([0, 1, 2]),       # a setting backed by a differently named machine variable
             "current_player.p": r.choice([r.choice(INTS), r.choice(STRS), r.choice(FLOATS)]),
             "device.counters.c1.value": r.choice([0, 1, 2, 5])}
 
@@ -332,6 +333,16 @@ settings:
     default: 0
     key_type: int
     sort: 1
+  s2:
+    label: s2
+    values:
+      0: zero
+      1: one
+      2: two
+    default: 0
+    key_type: int
+    sort: 2
+    machine_var: op_s2_backing
 counters:
   c1:
     count_events: c1_count
@@ -370,8 +381,8 @@ class Real:
         m = self.m
         if loc.startswith("machine."):
             m.variables.set_machine_var(loc.split(".")[1], v)
-        elif loc == "settings.s1":
-            m.settings.set_setting_value("s1", v)
+        elif loc in ("settings.s1", "settings.s2"):
+            m.settings.set_setting_value(loc.split(".")[1], v)
         elif loc == "current_player.p":
             m.game.player["p"] = v
         elif loc == "device.counters.c1.value":
@@ -407,7 +418,7 @@ class Real:
 
 
 def other_value(r, loc, cur):
-    if loc == "settings.s1":
+    if loc in ("settings.s1", "settings.s2"):
         return r.choice([x for x in (0, 1, 2) if x != cur])
     if loc == "device.counters.c1.value":
         return r.choice([x for x in (0, 1, 2, 5) if x != cur])
